@@ -202,4 +202,55 @@ theorem value_retype_forgery :
     verify2 freeAlg Cfg.strict (exTree.hash freeAlg) [true, true, false] forgedRetyped = .earlyValue := by
   decide
 
+/-! ## Range proofs (trie2, the single-element and the empty-range case only)
+
+`verifySingle` / `verifyEmpty` transcribe `verifySingleElementProof` / `verifyEmptyRangeProof` with
+`proofToPath` and `hasRightElement`; `RCfg.asIs` is the code at the pinned commit, `RCfg.strict` the
+code with proposed-fixes/C10-trie2-rangeproof-*.diff.  The general case (two edge paths,
+`unsetInternal`, re-insertion) and the legacy trie's range proofs are not modelled: `range_complete`
+and `range_sound` of the plan are NOT proved; what follows is the partial result. -/
+
+/-- PARTIAL (repaired variant, single element; missing: the `more` flag is not characterised, the
+multi-element case, the legacy trie): if `VerifyRangeProof(root, k, [k], [v], P)` succeeds for any
+node set P then every trie with that root holds `v` at `k`. -/
+theorem range_single_sound_partial (A : HashAlg H) (hI : Ideal A) (rc : RCfg)
+    (hch : rc.checkHash = true) (hev : rc.earlyValue = false) (hlh : rc.leafHash = true)
+    (n : Nat) (hn : 0 < n) (r : H) (k : Path) (hk : k.length = n) (v : H) (P : PSet H) (more : Bool)
+    (h : verifySingle A rc r k v P = RRes.ok more) :
+    ∀ t : Trie H, Trie.WF t n → t.hash A = r → t.get A k = v := by
+  intro t hwf hr
+  subst hr
+  exact single_sound hI rc hch hev hlh t n hwf hn k hk v P more h
+
+/-- PARTIAL (repaired variant, empty range; missing: that no key right of `first` is present): if
+`VerifyRangeProof(root, first, nil, nil, P)` succeeds then `first` itself is absent. -/
+theorem range_empty_sound_partial (A : HashAlg H) (hI : Ideal A) (rc : RCfg)
+    (hch : rc.checkHash = true) (hev : rc.earlyValue = false) (hlh : rc.leafHash = true)
+    (t : Tree H) (n : Nat) (hwf : WF t n) (hn : 0 < n) (first : Path) (hk : first.length = n)
+    (P : PSet H) (more : Bool) (h : verifyEmpty A rc (t.hash A) first P = RRes.ok more) :
+    t.get A first = A.zero :=
+  empty_sound hI rc hch hev hlh t n hwf hn first hk P more h
+
+/-- DEFECT (known finding `trie2:range:single-element-forged-node-under-root-hash`): with the code as
+it is, for EVERY root, key and non-zero value the one-node set `{root ↦ Edge(key, Value v)}` makes the
+single-element range proof verify — the root plays no part. -/
+theorem range_single_forgery (A : HashAlg H) (root : H) (k : Path) (v : H) (hv : v ≠ A.zero) :
+    verifySingle A RCfg.asIs root k v [(root, PNode.edge k ⟨Tag.value, v⟩ none)] = RRes.ok false :=
+  single_forgery A root k v hv
+
+/-- DEFECT (known finding `trie2:range:empty-range-forged-node-under-root-hash`): with the code as it
+is, for EVERY root and every `first` other than 0…0 the one-node set `{root ↦ Edge(0…0, Value v)}`
+makes "no entry at or right of `first`" verify. -/
+theorem range_empty_forgery (A : HashAlg H) (root : H) (first : Path) (v : H)
+    (hne : first ≠ List.replicate first.length false) :
+    verifyEmpty A RCfg.asIs root first
+      [(root, PNode.edge (List.replicate first.length false) ⟨Tag.value, v⟩ none)] = RRes.ok false :=
+  empty_forgery A root first v hne
+
+-- the repaired variant rejects both forgeries on the example trie
+example : verifySingle freeAlg RCfg.strict (exTree.hash freeAlg) [true, true, false] (.felt 666)
+    [(exTree.hash freeAlg, PNode.edge [true, true, false] ⟨Tag.value, .felt 666⟩ none)] = .err := by decide
+example : verifySingle freeAlg RCfg.strict (exTree.hash freeAlg) [true, true, false] (.felt 8)
+    (Trie.prove freeAlg false false (some exTree) [true, true, false]) = .ok true := by decide
+
 end Juno.C10.Props
